@@ -983,6 +983,13 @@ class state( dict ):
                                 "If 2 transitions, one must be '.' (anychar): %r" % ( 
                                     machine.map[pre] )
 
+                    if len( xformed ) > 1 and nxt not in states and True not in states[pre]:
+                        # A multi-symbol encoding leading only into a "dead" state, and no wildcard
+                        # to share its leading symbols with: reject it at its first encoded symbol
+                        # (don't consume part of an input symbol that isn't in the grammar).
+                        if states[pre].get( True, True ) is not None:
+                            states[pre][xformed[0][1]] = None
+                        continue
                     # Add and link up additional required states; lst will index last added one (if
                     # any; otherwise it will be pre)
                     lst		= pre
